@@ -2,7 +2,7 @@
 import itertools, os, posixpath
 from .runner import Prop
 from .wutil import fnv, hx, gen_bytes, content
-from . import rfc
+from . import rfc, core
 
 A_SERVER = [
     "in-process Server::listen on loopback; replies classified only as from-listening-port / from-another-port",
@@ -84,7 +84,9 @@ class Case:
                     self.dirs.add(item.rstrip("/"))
                 else:
                     p, h = item.split("=")
-                    if h.startswith("@"):
+                    if h == "|":
+                        self.files[p] = b""     # a FIFO (hostile batches only)
+                    elif h.startswith("@"):
                         # a symbolic link to a file of the same directory, named earlier: reads follow it
                         self.files[p] = self.files[(p.rsplit("/", 1)[0] + "/" if "/" in p else "") + h[1:]]
                     else:
@@ -220,7 +222,9 @@ class C03(ServerProp):
             out.append(b"".join(rng.choice(SEGS + [b"/", b"/", b"..", b"x", b"...", b". .", b"..."]) for _ in range(n)))
         out += [b"/etc/passwd", b"../secret", b"..\\secret", b"sub/../../secret", b"/../secret", b"a/../../srv-secret/s", b"../srv-secret/s",
                 b"..", b"a..b", b"a/..b", b"sub/..", b"sub/./b", b"sub//b", b"./a", b"a/", b"a/.", b"", b"/", b"\\\\a", b"//a", b"sub\\b",
-                b"x" * 400, b"../" * 100 + b"secret", b"srv/../secret", self.sandbox.encode() + b"/k0/secret"]
+                b"x" * 400, b"../" * 100 + b"secret", b"srv/../secret", self.sandbox.encode() + b"/k0/secret",
+                "sub\u042fb".encode(), "\u042fa".encode(), "sub\u015cb".encode(), "..\u042fsecret".encode(), "sub\u042f..\u042f..\u042fsecret".encode(),
+                "\u062fa".encode(), "sub\u4e5cdeep\u4e5cc".encode()]
         # directed: climb out through an EXISTING sub-directory, with every kind of separator run between the components (single, doubled,
         # tripled, mixed, with '.' in between) - the kernel collapses separator runs, a hand-written depth count may not
         seps = [b"/", b"//", b"///", b"\\", b"\\\\", b"\\/", b"/\\", b"/./", b"//.//"]
@@ -241,7 +245,7 @@ class C03(ServerProp):
         i = 0
         for name in self.names(tier, rng):
             for kind in ("rrq", "wrq"):
-                flags = rng.choice(["-", "o", "x", "xo", "s", "so", "sxo", "k", "1"])
+                flags = rng.choice(["-", "o", "x", "xo", "s", "so", "sxo", "k", "1", "v", "sxv"])
                 d = rq(kind, name)
                 if len(d) > 510:
                     continue
@@ -299,8 +303,13 @@ class C06(ServerProp):
         lines = []
         i = 0
         flagsets = ["".join(x) for x in itertools.product(["", "r"], ["", "o"], ["", "k"], ["", "s"], ["", "x"])]
-        names = [b"a", b"new", b"sub/b", b"sub/new", b"nodir/x", b"long", b"short", b"/a", b"sub\\b", b"empty", b"sub/empty"]
-        optsets = [(), (("blksize", 8),), (("tsize", 7), ("windowsize", 2)), (("timeout", 1), ("blksize", 1428), ("foo", "1"))]
+        flagsets += [f + "v" for f in flagsets[::3]]      # the same cells with the server on ::1
+        names = [b"a", b"new", b"sub/b", b"sub/new", b"nodir/x", b"long", b"short", b"/a", b"sub\\b", b"empty", b"sub/empty",
+                 # letters whose code point, cut to one byte, is '/' or '\\' (U+042F, U+015C, U+4E5C): they are letters, not separators
+                 "sub\u042fb".encode(), "\u042fa".encode(), "sub\u015cb".encode(), "\u4e5clong".encode()]
+        optsets = [(), (("blksize", 8),), (("tsize", 7), ("windowsize", 2)), (("timeout", 1), ("blksize", 1428), ("foo", "1")),
+                   # values the server cannot honour: a request that is refused anyway must still get its refusal
+                   (("blksize", 7),), (("timeout", 0), ("blksize", 512)), (("windowsize", 0),), (("blksize", 65465), ("tsize", 1))]
         reps = 1 if tier == "quick" else 4
         for _ in range(reps):
             for fl in flagsets:
@@ -413,7 +422,7 @@ class C09(ServerProp):
         n = 900 if tier == "quick" else 20000
         for i in range(n):
             kind = rng.choice(["rrq", "rrq", "wrq"])
-            flags = rng.choice(["-", "s", "o", "so", "1", "sx"])
+            flags = rng.choice(["-", "s", "o", "so", "1", "sx", "v", "sv", "ov"])   # v: the server listens on ::1
             flen = rng.choice([0, 1, 7, 8, 9, 16, 17, 100, 511, 512, 513, 1024, 3000])
             split = "x" in flags
             base = "send" if split else "srv"
@@ -424,7 +433,9 @@ class C09(ServerProp):
                 # the requested name is a symbolic link to the file (tsize must be the size of what is sent, not of the link)
                 fs += ",%s/lnk=@f" % base
                 name = b"lnk"
-            lines.append("req %s %s %s %s" % (self.root(i), flags, fs, rq(kind, name, opts).hex()))
+            # the transfer mode is carried but does not change what is sent (the server treats every mode as octet)
+            mode = rng.choice([b"octet"] * 6 + [b"netascii", b"OCTET", b"NetAscii", b"mail", b"", b"binary"])
+            lines.append("req %s %s %s %s" % (self.root(i), flags, fs, rq(kind, name, opts, mode=mode).hex()))
         # directed: large blksize x windowsize products (a window of just over 1 MiB, uploaded in full and paced) and the
         # products just below; option order varied; both port modes
         big = [(1468, 715), (1468, 714), (512, 2049), (512, 2047), (16384, 65), (16384, 63), (65464, 17), (65464, 15), (8192, 128)]
@@ -561,6 +572,8 @@ class C05(ServerProp):
     rule = ("hostile batches (random bytes; mutations of valid packets; all packet kinds; option values 0,1,7,8,65464,65465,2^16,2^31,2^32,2^40,2^63,2^64-1,2^64,-1,+5,non-numeric,empty; "
             "oversize datagrams) sent from several sources to the in-process server in {multi, single} x {read-only, writable}, each batch followed by a probe RRQ that must be served "
             "byte-exactly; any case with option values above 2^32 is executed in a child harness process so that an abort is observed, not suffered; "
+            "the real tftpd process with relative directories (-d ., -sd . -rd ., -d ./) under a fixed hostile batch (requests for the served directory itself, empty and "
+            "garbage datagrams) followed by a probe, exit status observed; "
             "non-trivial = distinct batch containing at least one datagram that decodes")
 
     def hostile(self, rng):
@@ -574,7 +587,7 @@ class C05(ServerProp):
             return rfc.encode(rand_packet(rng, "quick"))[:3000]
         kind = rng.choice(["rrq", "wrq"])
         # names that make the file-system calls themselves fail (ENAMETOOLONG, ENOTDIR, EISDIR), not only ENOENT
-        name = rng.choice([b"f", b"f", b"missing", b"../x", b"up%d" % rng.randint(0, 9), b"a" * 255, b"a" * 256, b"b" * 400,
+        name = rng.choice([b"f", b"f", b"missing", b"pipe", b"pipe", b"../x", b"up%d" % rng.randint(0, 9), b"a" * 255, b"a" * 256, b"b" * 400,
                            b"f/x", b"f/", b"f/.", b"", b"/", b".", b"sub/" + b"c" * 300, b"\xc3\xa9" * 130])
         vals = [b"0", b"1", b"7", b"8", b"65464", b"65465", b"65536", b"2147483648", b"4294967296", b"1099511627776", b"9223372036854775808",
                 b"18446744073709551615", b"18446744073709551616", b"18446744073709551614", b"-1", b"+5", b"abc", b""]
@@ -586,8 +599,10 @@ class C05(ServerProp):
         lines = []
         n = 260 if tier == "quick" else 6000
         for i in range(n):
-            flags = rng.choice(["-", "s", "r", "sr"])
+            flags = rng.choice(["-", "s", "r", "sr", "v", "sv"])
             fs = "srv/f=gen:%d:%d" % (rng.choice([0, 5, 512, 1300]), rng.randint(0, 255))
+            if rng.random() < 0.25:
+                fs += ",srv/pipe=|"      # a FIFO without a writer in the served directory (the hostile names include it)
             probe_opts = rng.choice([(), (("blksize", 8),), (("blksize", 1024), ("windowsize", 3)), (("tsize", 0),)])
             probe = rq("rrq", b"f", probe_opts)
             batch = [self.hostile(rng) for _ in range(rng.randint(1, 12))]
@@ -648,6 +663,77 @@ class C05(ServerProp):
         if rec and "oack" not in r1:
             return ("after the batch the probe is not acknowledged", "probe-not-served")
         return None
+
+    needs_bins = True
+
+    def extra_checks(self, res, workdir, tier, rng):
+        """the real tftpd process, started the way an administrator would: relative directories (`-d .`), its own working directory"""
+        import socket, subprocess, time
+        bins = os.path.join(core.HARNESS, "target", "repo-bins", "debug")
+        tftpd = os.path.join(bins, "tftpd")
+        if not os.path.exists(tftpd):
+            return [("process-level", "binary missing", "tftpd was not built from /repo", "no-binaries")]
+        viol = []
+        ran = 0
+        content = bytes((i * 7 + 3) & 255 for i in range(40))
+        hostile = [rq(k, n, o) for k in ("rrq", "wrq") for n in (b"", b"/", b"\\", b"//", b".", b"./", b"..", b"sub", b"sub/")
+                   for o in ((), (("blksize", 8),))] + [b"", b"\0", b"\0\1", b"\0\5\0\1x\0", bytes(range(200)), b"\0\1f.bin\0octet\0blksize\0" + b"9" * 30 + b"\0"]
+        for mode in ([], ["-s"]):
+            # (not `-d sub/..`: a served directory whose own path contains ".." refuses every name with ERROR 2 - the confinement check of
+            # C03 looks for ".." in the joined path; an observation, not a violation of this property)
+            for dirargs in (["-d", "."], ["-sd", ".", "-rd", "."], ["-d", "./"]):
+                sdir = os.path.join(workdir, "proc", "d%d" % ran)
+                os.makedirs(os.path.join(sdir, "sub"), exist_ok=True)
+                with open(os.path.join(sdir, "f.bin"), "wb") as fh:
+                    fh.write(content)
+                s0 = socket.socket(socket.AF_INET, socket.SOCK_DGRAM)
+                s0.bind(("127.0.0.1", 0))
+                port = s0.getsockname()[1]
+                s0.close()
+                p = subprocess.Popen([tftpd, "-i", "127.0.0.1", "-p", str(port)] + dirargs + mode + ["--overwrite"], cwd=sdir,
+                                     stdout=subprocess.DEVNULL, stderr=subprocess.DEVNULL)
+                time.sleep(0.2)
+                desc = "tftpd %s %s (cwd = the served directory) under a hostile batch" % (" ".join(dirargs), " ".join(mode))
+                try:
+                    if p.poll() is not None:
+                        viol.append((desc, "did not start", "tftpd does not start with a relative directory", "process-start"))
+                        continue
+                    c = socket.socket(socket.AF_INET, socket.SOCK_DGRAM)
+                    c.settimeout(0.05)
+                    for d in hostile:
+                        c.sendto(d, ("127.0.0.1", port))
+                        try:
+                            while True:
+                                data, frm = c.recvfrom(70000)
+                                if data[:2] in (b"\0\3", b"\0\6", b"\0\4"):
+                                    c.sendto(b"\0\5\0\0stop\0", frm)      # end whatever it started
+                        except (socket.timeout, ConnectionError):
+                            pass
+                    time.sleep(0.1)
+                    alive = p.poll() is None
+                    pr = socket.socket(socket.AF_INET, socket.SOCK_DGRAM)
+                    pr.settimeout(1.5)
+                    pr.sendto(rq("rrq", b"f.bin", ()), ("127.0.0.1", port))
+                    got = None
+                    try:
+                        data, frm = pr.recvfrom(70000)
+                        got = data
+                        pr.sendto(b"\0\4\0\1", frm)
+                    except (socket.timeout, ConnectionError):
+                        pass
+                    ran += 1
+                    if not alive or p.poll() is not None:
+                        viol.append((desc, "exit status %s" % p.poll(), "the server process terminated", "process-died"))
+                    elif got != b"\0\3\0\1" + content:
+                        viol.append((desc, "probe answered with %r" % (got[:20] if got else None), "after the batch a valid read request is not served correctly", "process-probe"))
+                finally:
+                    p.kill()
+                    p.wait()
+        res.extra["process_level_batches"] = ran
+        res.evaluations += ran
+        for k in range(ran):
+            res.distinct.add("proc-%d" % k)
+        return viol[:5]
 
     def shrink(self, line):
         t = line.split(" ")
@@ -720,6 +806,13 @@ class C12(ServerProp):
                     for sched in (["01", "001", "00001"] if tier == "thorough" else [rng.choice(["01", "001", "0001"])]):
                         lines.append("multi %s %s srv/big=gen:3000:5 %s %s x:0:%s" % (self.root(i), flags, sched, victim, what))
                         i += 1
+        # directed: a client whose request datagram arrives twice (its first reply "lost") and that is slower than the negotiated timeout
+        # once: the worker started by the first copy ends while the transfer started by the second is running
+        for flags in ["s", "-"]:
+            lines.append("multi %s %s srv/c=gen:16:3,srv/big=gen:3000:5 0 D:big:512:1 d:c:8:1" % (self.root(i), flags))
+            i += 1
+            lines.append("multi %s %s srv/c=gen:16:3,srv/big=gen:3000:5 01 D:big:1024:2 u:up1:512:1:gen:700:3" % (self.root(i), flags))
+            i += 1
         # directed: one endpoint performs two transfers, one after the other, from the same port (a client need not change its port)
         seqs = ["d:c:8:1+d:big:512:1", "d:big:512:2+u:up1:512:1:gen:700:3", "u:up1:8:2:gen:30:1+d:c:8:1", "u:up1:512:1:gen:1500:4+u:up2:512:1:gen:600:5",
                 "d:missing:512:1+d:c:8:1", "d:c:8:1+d:c:8:1"]
@@ -733,7 +826,7 @@ class C12(ServerProp):
             k = rng.randint(2, 4 if tier == "quick" else 9)
             cl, fs = self.gen_clients(rng, k)
             sched = "".join(rng.choice("0123456789"[:k]) for _ in range(rng.randint(0, 6 * k)))
-            flags = rng.choice(["-", "s", "-", "s", "r", "sr"])
+            flags = rng.choice(["-", "s", "-", "s", "r", "sr", "v", "sv"])
             lines.append("multi %s %s %s %s %s" % (self.root(i), flags, fs, sched or "0", " ".join(cl)))
             i += 1
         return lines
@@ -763,6 +856,8 @@ class C12(ServerProp):
             subs += [(k, sp, g) for sp, g in zip(parts, gots)]
         for k, spec, got in subs:
             p = spec.split(":")
+            if p[0] == "D":
+                p[0] = "d"       # a download whose request datagram was sent twice: the same outcome is due
             if p[0] == "d":
                 f = c.files.get("srv/" + p[1])
                 if f is not None:
